@@ -160,7 +160,7 @@ Example C14_witness_hypotheses :
   (* a delegating custom __adapt__ below a base one *)
   py_call (type_of_chain true [mkLvl (Some CANone) false; mkLvl (Some CADelegate) true]) o =
     ([EvGetConform; EvCallConform; EvCustom 1; EvCustom 0], ReturnAlt).
-Proof. cbv. repeat split; auto. Qed.
+Proof. cbv. repeat split; auto 10. Qed.
 
 (* Why the propagation matters (finding F8, fixed in /repo): with the logic before the fix
    ([type_of_chain false]) the C path skips the inherited custom __adapt__ on
